@@ -82,13 +82,14 @@ def handle (line : String) : String :=
         let usedSlot (j : Nat) : Bool := (mask[j]?).getD '1' == '1'
         let outs := (List.range n).map fun j => if usedSlot j then some (100 + j) else none
         let op : OpNode := { rules := rules, inputs := inputs, outputs := outs }
+        let strict := match propagate true static [op] [] with | none => "typefail" | some _ => "pass"
         match propagate false static [op] [] with
         | none => "error"
         | some m => joinWith ";" ((List.range n).map fun j =>
             if !usedSlot j then "-" else
             match m.get (100 + j) with
             | some t => vtypeName t
-            | none => "?")
+            | none => "?") ++ s!" strict={strict}"
     | _, _, _ => "bad-request"
   | "graph" :: _ =>
     match field ws "decl", field ws "ops" with
@@ -124,8 +125,11 @@ def handle (line : String) : String :=
     match field ws "pre", field ws "decl", (field ws "to").bind dtypeOf? with
     | some pre, some decl, some to =>
       let zp : Option VType := ((field ws "zp").bind dtypeOf?).map VType.tensor
+      -- `lie`: dtype declared by a value_info on the Cast's input (id 1)
+      let lie : Option VType := ((field ws "lie").bind dtypeOf?).map VType.tensor
       let static : Nat → Option VType := fun id =>
-        if id == 0 then (dtypeOf? decl).map VType.tensor else if id == 2 then zp else none
+        if id == 0 then (dtypeOf? decl).map VType.tensor else if id == 2 then zp
+        else if id == 1 then lie else none
       if pre == "-" then
         s!"elim={b01 (castElimGuard (label static [] 0) to)}"
       else
